@@ -670,6 +670,10 @@ class SymInt:
 
     __hash__ = None
 
+    def __bool__(self):
+        # Python truthiness of an int (`seed or None`, `if n:`): forks on v != 0
+        return bool(self.v) if self.concrete else bool(self != 0)
+
     def __index__(self):
         if self.concrete:
             return self.v
